@@ -196,6 +196,7 @@ func c17Gen(rng *verifsim.RNG, idx int, tier string) *Plan {
 			req(t0 + 1000)
 		}
 	}
+	monitorStanzaAnywhere(rng, p)
 	return p
 }
 
@@ -430,11 +431,13 @@ func c17Oracle(info *runInfo, res *verifsim.Result) {
 		}
 		// what the request itself read, and whether any of its calls was parked
 		held := false
+		sideBySide := false // listings made by helper goroutines of the request, side by side
 		fwdRead := map[string]bool{}
 		fwdErr, autoErr := false, false
 		autoRead := map[string]bool{}
 		listings := map[string][]string{}
 		var routeList []string
+		routeBy := map[int64][]string{} // by loopback interface
 		for i := range info.ev {
 			x := &info.ev[i]
 			if x.Seq <= r.enter.Seq || x.Seq >= r.exit.Seq || advG[x.G] {
@@ -457,17 +460,48 @@ func c17Oracle(info *runInfo, res *verifsim.Result) {
 					autoRead[x.If] = x.V == 1
 				}
 			case "rtnl.addr.exit":
+				if x.G != r.enter.G {
+					sideBySide = true
+				}
 				if x.Err != "" {
 					listings[x.If] = append(listings[x.If], "!"+x.Err)
 				} else {
 					listings[x.If] = append(listings[x.If], x.S)
 				}
 			case "rtnl.route.exit":
+				if x.G != r.enter.G {
+					sideBySide = true
+				}
 				if x.Err != "" {
 					routeList = append(routeList, "!"+x.Err)
+					routeBy[x.V] = append(routeBy[x.V], "!"+x.Err)
 				} else {
 					routeList = append(routeList, x.S)
+					routeBy[x.V] = append(routeBy[x.V], x.S)
 				}
+			}
+		}
+		if sideBySide {
+			// which stanza was given which listing cannot be told: only judged
+			// when they all say the same
+			same := true
+			for _, l := range listings {
+				for _, a := range l {
+					if a != l[0] || strings.HasPrefix(a, "!") {
+						same = false
+					}
+				}
+			}
+			for _, l := range routeBy {
+				for _, a := range l {
+					if a != l[0] || strings.HasPrefix(a, "!") {
+						same = false
+					}
+				}
+			}
+			if !same {
+				res.Probe("listings_side_by_side_saw_different_tables")
+				continue
 			}
 		}
 		if !held && r.exit.T != r.enter.T {
@@ -657,6 +691,16 @@ func c17Oracle(info *runInfo, res *verifsim.Result) {
 					}
 					chk("corerad_interface_forwarding", f, okf)
 					a, oka := autoRead[ifn]
+					if !oka && !autoErr {
+						// answered without asking the system (an assumption about what
+						// the Dialer is doing right now?): held against the sysctl's real
+						// value, if that did not change while the request ran
+						a0, a1 := worldAutoAt(info, 0, ifn, r.enter.Seq), worldAutoAt(info, 0, ifn, r.exit.Seq)
+						if _, has := got[fmt.Sprintf("corerad_interface_autoconfiguration{interface=%s}", ifn)]; has && a0 == a1 {
+							a, oka = a1, true
+							res.Probe("autoconf_gauge_without_read")
+						}
+					}
 					chk("corerad_interface_autoconfiguration", a, oka)
 				}
 			}
@@ -793,9 +837,11 @@ func c17Oracle(info *runInfo, res *verifsim.Result) {
 	if SimRealHTTP && cfg.Debug != nil && cfg.Debug.Address != "" {
 		k := info.plan.Opt["listen_failures"]
 		var ready *verifsim.Event
+		// (up = its listening socket is open; WHEN the supervisor takes note of
+		// that - it may look at its tasks one after the other - is not the point)
 		for i := range info.ev {
 			e := &info.ev[i]
-			if e.K == "task.ready" && strings.HasPrefix(e.S, "debug HTTP server") {
+			if e.K == "http.listen" && e.Err == "" {
 				ready = e
 				break
 			}
@@ -882,4 +928,26 @@ func firstLine(s string) string {
 
 func init() {
 	register("C17", nil, c17Gen, c17Oracle)
+}
+
+// worldAutoAt returns the value the autoconf sysctl of ifn held just before
+// event seq: the plan's initial value, as changed by the operator (act.autoconf)
+// and by every write that succeeded.
+func worldAutoAt(info *runInfo, node int, ifn string, seq int) bool {
+	v := false
+	for _, iw := range info.plan.Nodes[node].Ifaces {
+		if iw.Name == ifn {
+			v = iw.Auto
+		}
+	}
+	for i := range info.ev {
+		e := &info.ev[i]
+		if e.Seq >= seq {
+			break
+		}
+		if (e.K == "act.autoconf" || e.K == "auto.set") && e.Node == node && e.If == ifn && e.Err == "" {
+			v = e.V == 1
+		}
+	}
+	return v
 }
